@@ -546,6 +546,19 @@ pub fn run(ctx: &Ctx) -> (Stats, Spec) {
     });
     let mut st = crate::report::merge_all(parts);
     st.exhaustive.push("every request (V <= 6, E <= max+2, -u, --dot, stdout / -o) and --complete for V <= 6; --convert on all digraphs with <= 3 vertices; --colors k (k = 0..3) on all loop-free graphs with 2..4 vertices".into());
+    // file names that are not valid UTF-8: --convert IN -o OUT reproduces the list
+    {
+        let csv = "a,b\nb,c\nc,a\n";
+        let (out, written) = super::common::run_with_non_utf8_paths(ctx, "random_graph_gen", &["--convert"], Some(csv.as_bytes()), &["-o"], true, "c18");
+        st.evals += 1;
+        if !out.timed_out {
+            if !out.ok() || written.as_deref() != Some(csv) || !out.stdout_str().trim().is_empty() {
+                st.violate("c18.convert", "C18:non-utf8-file-names".into(), format!("random_graph_gen --convert IN -o OUT with file names that are not valid UTF-8: {}; OUT holds {:?}, stdout {:?}", out.status_string(), written, out.stdout_str()), json!({"kind": "non-utf8-names"}));
+            } else {
+                st.bump("file_names_not_valid_utf8");
+            }
+        }
+    }
     let spec = Spec {
         rule: "all (V in 0..6, E in 0..max+2, -u, --dot, stdout or -o) requests and boundary edge counts for V in {11, 17, 40}, feasible ones repeated 10 [quick] / 60 [thorough] times (every run is a fresh random sample; the number of distinct outputs seen is reported), --complete with and without an edge count, missing arguments; --convert (file to convert: a regular file, a named pipe or /dev/stdin; output to stdout, to another file, or IN PLACE onto the file being converted, directly or through a symbolic link) on every digraph with <= 3 vertices, random edge lists over 4-5 vertices, and (under -u) ordered pairs of distinct edges over five names of every family (a third of them [quick] / all [thorough]) (shuffled rows; exact duplicates and self-loops without -u; reversed pairs under -u), --colors 0..3 on every loop-free graph with 2..4 (thorough: sampled 5) vertices, with seven vertex-name families (names that collide under joining with '-', '_' or '.'; plain; one name a prefix of another: v1 / v10 / v1X, 1 / 10 / 100; names containing the colour suffix pattern), and --colors on generated complete graphs with 11-12 vertices. distinct = (request, output); non-trivial = 0 < E < max resp. non-empty input.".into(),
         assumptions: vec![
